@@ -349,6 +349,31 @@ pub fn merge(items: &Vec<&Value>) -> Result<Value, Error> {
     )))
 }
 
+/// Structural equality of JSON values in which numbers are compared by
+/// value rather than by representation, so that 1, 1.0 and 1e0 (or 0 and -0)
+/// are the same element wherever they occur.
+fn json_eq(first: &Value, second: &Value) -> bool {
+    match (first, second) {
+        (Value::Number(x), Value::Number(y)) => {
+            x == y
+                || ((x.is_f64() || y.is_f64())
+                    && match (x.as_f64(), y.as_f64()) {
+                        (Some(x_val), Some(y_val)) => x_val == y_val,
+                        _ => false,
+                    })
+        }
+        (Value::Array(x), Value::Array(y)) => {
+            x.len() == y.len() && x.iter().zip(y.iter()).all(|(i, j)| json_eq(i, j))
+        }
+        (Value::Object(x), Value::Object(y)) => {
+            x.len() == y.len()
+                && x.iter()
+                    .all(|(key, i)| y.get(key).map_or(false, |j| json_eq(i, j)))
+        }
+        _ => first == second,
+    }
+}
+
 /// Perform containment checks with "in"
 // TODO: make this a lazy operator, since we don't need to parse things
 // later on in the list if we find something that matches early.
@@ -365,7 +390,9 @@ pub fn in_(items: &Vec<&Value>) -> Result<Value, Error> {
         // implementation is relying on broken, undefined behavior, it seems
         // okay to update that behavior to work in a more intuitive way.
         Value::Null => Ok(Value::Bool(false)),
-        Value::Array(possibles) => Ok(Value::Bool(possibles.contains(needle))),
+        Value::Array(possibles) => Ok(Value::Bool(
+            possibles.iter().any(|possible| json_eq(possible, needle)),
+        )),
         Value::String(haystack_string) => {
             // Note: the reference implementation uses the regular old
             // String.prototype.indexOf() function to check for containment,
